@@ -55,11 +55,17 @@ func Range[T Number](args ...T) ([]T, error) {
 		for i := start; i < end; i += step {
 			n, _ := N[T](NumToString(i))
 			result = append(result, T(n))
+			if i+step < i { // the next term does not fit into T: the counter would wrap around
+				break
+			}
 		}
 	} else {
 		for i := start; end < i; i -= Abs(step) {
 			n, _ := N[T](NumToString(i))
 			result = append(result, T(n))
+			if i-Abs(step) > i { // the next term does not fit into T: the counter would wrap around
+				break
+			}
 		}
 	}
 
